@@ -406,6 +406,11 @@ func readHeader(in *io.Reader) (manifest []byte, mac []byte, err error) {
 		return nil, nil, errors.New("message authentication code not found")
 	}
 
+	// The header is complete, but if the source failed with an error other than EOF while delivering its last bytes, that error must not be lost
+	if err != nil && !errors.Is(err, io.EOF) {
+		return nil, nil, err
+	}
+
 	// Whatever data we read extra, add it back to the beginning of the stream
 	if n > lastNewline {
 		// We need to copy the data because the buffer will be given back
